@@ -5,7 +5,7 @@ from bounded import emission, graphprops
 PROP = "C06"
 LEVEL = "exploration"
 ENGINE = "pyvc+bounded"
-HARNESS_MODULES = ['contracts.c04_graph_plumbing', 'contracts.c14_grid_frame']
+HARNESS_MODULES = ['contracts.c04_graph_plumbing', 'contracts.c14_grid_frame', 'contracts.c06_emission']
 EXTRA_HARNESSES = [('C04', 'graph_add_edge'), ('C04', 'primitive_operands_connected'), ('C14', 'from_grid_frame')]
 MOD = "props.C06"
 instantiate = graphprops.inst_C06
@@ -13,6 +13,8 @@ descs = graphprops.descs_C06
 
 
 def bounded(tier, seed, rep):
+    from bounded import leancheck
+    leancheck.check(rep, "lean/Encoders.lean", ["C06.enc_iff_onecycle", "C06.passed_iff_visited"])
     emission.run_parallel(rep, PROP, MOD, list(graphprops.with_builds(list(descs(tier)) + graphprops.deep_descs(PROP, tier))))
 
 
